@@ -1,0 +1,66 @@
+//go:build verif
+
+// Contracts for the generated lexer package (template lexerSrc); keyed by the functions of the expanded package.
+// Comment-only file, compiled only with -tags=verif. See /verif/DESIGN.md sections 3.1-3.3 and Appendix A.
+
+package golang
+
+//@ package lexer
+//@
+//@ # The transition functions are table entries: one uninterpreted function of (function value, rune).
+//@ specfun TransF(f int, r int) int
+//@
+//@ func lexer.TransTab[_]#call(r)
+//@   trusted
+//@   ensures [fun] result == TransF(fn, r)
+//@   ensures [wf] 0-1 <= result && result < NumStates
+//@   assigns nothing
+//@
+//@ func NewLexer
+//@   prop C08 C16
+//@   ensures [fresh] result != nil && result >= old(alloc())
+//@   ensures [cursor] result.src == src && result.pos == 0 && result.line == 1 && result.column == 1
+//@   assigns nothing
+//@
+//@ func (*Lexer).Reset
+//@   prop C16
+//@   requires [l] l != nil
+//@   ensures [cursor] l.pos == 0 && l.line == 1 && l.column == 1
+//@   ensures [src] l.src == old(l.src)
+//@   assigns l.pos, l.line, l.column
+//@
+//@ func (*Lexer).Scan
+//@   prop C08 C01
+//@   # UTF-8 view of the source (DESIGN 3.1): rune and size that utf8.DecodeRune yields at byte offset q
+//@   ghost RuneAt(q int) int = DecR(raw(l.src), off(l.src)+q, len(l.src)-q)
+//@   ghost SizeAt(q int) int = DecSize(raw(l.src), off(l.src)+q, len(l.src)-q)
+//@   # rune boundaries reachable from 0, and the position recurrence of C08 (DESIGN 3.2)
+//@   ghost Bnd(q int) bool
+//@   ghost Line(q int) int
+//@   ghost Col(q int) int
+//@   ghostaxiom [bnd0] Bnd(0) && Line(0) == 1 && Col(0) == 1
+//@   ghostaxiom [bndS] all(q, 0, len(l.src), imp(Bnd(q), Bnd(q+SizeAt(q))), trig(Bnd(q)))
+//@   ghostaxiom [lineS] all(q, 0, len(l.src), imp(Bnd(q), Line(q+SizeAt(q)) == Line(q) + ite(RuneAt(q) == '\n', 1, 0)), trig(Bnd(q)))
+//@   ghostaxiom [colS] all(q, 0, len(l.src), imp(Bnd(q), Col(q+SizeAt(q)) == ite(RuneAt(q) == '\n' || RuneAt(q) == '\r', 1, ite(RuneAt(q) == '\t', Col(q)+4, Col(q)+1))), trig(Bnd(q)))
+//@   requires [l] l != nil
+//@   # WF_lex (DESIGN 3.3): what getActTab emits - an ignore name exactly for the states whose Accept is -1
+//@   requires [wf-act] all(s, 0, NumStates, iff(ActTab[s].Accept == 0-1, ActTab[s].Ignore != ""))
+//@   requires [cursor] 0 <= l.pos && l.pos <= len(l.src) && Bnd(l.pos) && l.line == Line(l.pos) && l.column == Col(l.pos)
+//@   ensures [tok] tok != nil && tok >= old(alloc())
+//@   ensures [cursor] 0 <= l.pos && l.pos <= len(l.src) && Bnd(l.pos) && l.line == Line(l.pos) && l.column == Col(l.pos)
+//@   ensures [pos] old(l.pos) <= tok.Pos.Offset && tok.Pos.Offset <= l.pos && Bnd(tok.Pos.Offset) && tok.Pos.Line == Line(tok.Pos.Offset) && tok.Pos.Column == Col(tok.Pos.Offset)
+//@   ensures [lit] len(tok.Lit) == l.pos - tok.Pos.Offset && imp(len(tok.Lit) > 0, arr(tok.Lit) == arr(l.src) && off(tok.Lit) == off(l.src) + tok.Pos.Offset)
+//@   ensures [progress] imp(old(l.pos) < len(l.src), l.pos > old(l.pos))
+//@   ensures [eof] imp(old(l.pos) >= len(l.src), tok.Type == token.EOF && l.pos == old(l.pos) && tok.Pos.Offset == l.pos)
+//@   ensures [context] tok.Pos.Context == l.Context
+//@   assigns l.pos, l.line, l.column
+//@   loop 1
+//@     invariant [range] 0 <= start && start <= l.pos && l.pos <= len(l.src) && old(l.pos) <= start && Bnd(start) && old(l.pos) < len(l.src)
+//@     invariant [state] 0-1 <= state && state < NumStates
+//@     invariant [start] startLine == Line(start) && startColumn == Col(start)
+//@     invariant [live] imp(state != 0-1, Bnd(l.pos) && l.line == Line(l.pos) && l.column == Col(l.pos))
+//@     invariant [end] end <= l.pos && imp(state != 0-1 && l.pos > start, end == l.pos)
+//@     invariant [dead] imp(state == 0-1, l.pos > old(l.pos) && imp(end > start, Bnd(end) && l.line == Line(end) && l.column == Col(end)) && imp(end <= start, l.pos == start && Bnd(l.pos) && l.line == Line(l.pos) && l.column == Col(l.pos)))
+//@     invariant [fresh-start] imp(state != 0-1 && l.pos == start, tok.Type == token.INVALID || (tok.Type == token.EOF && start >= len(l.src)))
+//@     invariant [tokobj] tok != nil && tok >= old(alloc()) && l.src == old(l.src)
+//@     decreases len(l.src) - l.pos + ite(state != 0-1, 1, 0)
